@@ -169,8 +169,16 @@ impl Decoder {
                 .get_bytes(1)
                 .ok_or(DecodingError::UnexpectedFin)?[0] as usize;
 
+            let chunk = byte & 0x7F;
+
+            let shifted = u32::try_from(power)
+                .ok()
+                .and_then(|power| chunk.checked_shl(power))
+                .filter(|shifted| shifted >> power == chunk)
+                .ok_or(DecodingError::IntegerOverflow)?;
+
             value = value
-                .checked_add((byte & 0x7F) << power)
+                .checked_add(shifted)
                 .ok_or(DecodingError::IntegerOverflow)?;
 
             power += 7;
